@@ -87,7 +87,7 @@ impl Serialize for WKey<'_> {
             }
             (KeyTy::UnitVariant(name, vars), Val::Variant(i, _)) => s.serialize_unit_variant(intern(name), *i as u32, intern(&vars[*i])),
             (KeyTy::NewtypeStr(name), Val::Str(x)) => s.serialize_newtype_struct(intern(name), x.as_str()),
-            (KeyTy::I64, Val::Int(i)) => s.serialize_i64(*i as i64),
+            (KeyTy::I64, Val::Int(i)) | (KeyTy::SpannedI64, Val::Int(i)) => s.serialize_i64(*i as i64),
             (KeyTy::Bool, Val::Bool(b)) => s.serialize_bool(*b),
             (KeyTy::Char, Val::Char(c)) => s.serialize_char(*c),
             (t, v) => Err(S::Error::custom(format!("HARNESS: key type/value mismatch {t:?} / {v:?}"))),
